@@ -4,7 +4,7 @@ to a scratch worktree of /repo's HEAD and the check of its property is run
 against it (VERIF_REPO=<worktree>); the check must exit 1 with a VIOLATION
 line.  The worktree lives outside /repo and /verif and is removed afterwards.
 
-usage: tools/reseed.py [id ...]      (default: all)"""
+usage: tools/reseed.py [--shard k/n] [id ...]      (default: all; shards run side by side in their own worktrees)"""
 import glob
 import json
 import os
@@ -21,7 +21,13 @@ def sh(*cmd, **kw):
 
 
 def main():
-  ids = sys.argv[1:] or sorted(os.path.basename(d) for d in glob.glob(os.path.join(ROOT, 'seeded', '*')))
+  global WT
+  k, n = 0, 1
+  if len(sys.argv) > 2 and sys.argv[1] == '--shard':
+    k, n = map(int, sys.argv[2].split('/'))
+    del sys.argv[1:3]
+    WT = '%s_%d' % (WT, k)
+  ids = sys.argv[1:] or sorted(os.path.basename(d) for d in glob.glob(os.path.join(ROOT, 'seeded', '*')))[k::n]
   sh('git', '-C', '/repo', 'worktree', 'remove', '--force', WT)
   r = sh('git', '-C', '/repo', 'worktree', 'add', '--detach', WT)
   if r.returncode:
@@ -53,7 +59,7 @@ def main():
         missed.append(sid)
     # behaviour-preserving refactorings: no check may raise an alarm
     if not sys.argv[1:]:
-      for d in sorted(glob.glob(os.path.join(ROOT, 'benign', '*'))):
+      for d in sorted(glob.glob(os.path.join(ROOT, 'benign', '*')))[k::n]:
         meta = json.load(open(os.path.join(d, 'meta.json')))
         sh('git', '-C', WT, 'checkout', '--', '.')
         sh('git', '-C', WT, 'checkout', '--detach', head)
